@@ -43,6 +43,7 @@ namespace bloch::compiler {
         int m_expressionDepth = 0;  // depth of the expression tree being built (bounded)
         int m_operandDepth = 0;     // deepest operand completed inside the current parse call
         int m_statementDepth = 0;   // nesting of the statement being parsed (bounded)
+        int m_typeDepth = 0;        // nesting of the type being parsed (bounded)
         // For multi-declarations (e.g. qubit a, b, c;), we parse the first
         // and stage the rest here, then flush them into the surrounding block.
         std::vector<std::unique_ptr<Statement>> m_extraStatements;
